@@ -207,5 +207,20 @@ PROPS = {
     },
 }
 
+PROPS["C19"] = {
+    "jobs": [{"cmd": "config", "quick": 45, "thorough": 900, "binary": True, "timeout": 6000}],
+    "rule": "the real binary (go build ./cmd/ps3netsrv-go from the working tree) started once per case: one of 9 observable settings (root in three "
+            "spellings, listen-addr, allow-write, max-clients, client-whitelist, read-timeout, debug, json-log, debug-server-listen-addr) gets its value "
+            "through one of 6 channels (flag, environment, --config file, PS3NETSRV_CONFIG_FILE file, ./config.ini, user configuration directory), through two "
+            "channels with conflicting values, or gets a malformed value; the effective value is read off the server's behaviour (marker files, mkdir "
+            "result, served clients out of three, admitted source addresses, idle cut, log format, pprof port) or the exit status; all cases non-trivial",
+    "assumptions": ["kong and ini.v1 are dependencies: modelled by the resolution order of Model/Config, not verified",
+                    "flag and environment names and defaults come from the struct tags of serverApp (regenerated on every run)"],
+    "partial": ["buffer-size has no observable effect and is not exercised", "kong/ini parsing itself is outside the model"],
+    "level_text": "Theorems C19_flag_wins, C19_channel_equiv, C19_discovery, C19_fail_closed, C19_default, C19_table over the resolution model (flag > last INI "
+                  "file > environment > default, then the decoder); the model is tied to the real binary by the channel matrix.",
+    "technique": "Coq proof over a resolution-order model + differential against the real binary",
+}
+
 # properties not registered yet, with the reason shown in MANIFEST.not_applicable
 NOT_YET = {}
